@@ -119,6 +119,25 @@ func install(env *stick.Env, rec *recorder) {
 	flt("fid", func(ctx stick.Context, val stick.Value, args ...stick.Value) stick.Value { return val })
 	flt("frepr", func(ctx stick.Context, val stick.Value, args ...stick.Value) stick.Value { return Repr(val) })
 
+	// explicit-escaping filters used by the C12 translation (core environment)
+	env.Filters["hraw"] = func(ctx stick.Context, val stick.Value, args ...stick.Value) stick.Value {
+		return stick.NewSafeValue(OwnStr(val), "html", "html_attr", "js", "css", "url")
+	}
+	env.Filters["hesc"] = func(ctx stick.Context, val stick.Value, args ...stick.Value) stick.Value {
+		typ := "html"
+		if len(args) > 0 {
+			typ, _ = args[0].(string)
+		}
+		f := escaper(typ)
+		if f == nil {
+			return val
+		}
+		if sv, ok := val.(stick.SafeValue); ok && sv.IsSafe(typ) {
+			return val
+		}
+		return stick.NewSafeValue(f(OwnStr(val)), typ)
+	}
+
 	tst := func(name string, f func(ctx stick.Context, val stick.Value, args ...stick.Value) bool) {
 		env.Tests[name] = func(ctx stick.Context, val stick.Value, args ...stick.Value) bool {
 			ret := f(ctx, val, args...)
